@@ -819,15 +819,38 @@ def _unit(dom, j, n, cplx_dtype):
     return dense.unflatten(dom, v)
 
 
+def _units_mixed(dom, key_cplx):
+    """unit vectors of a MultiDomain whose keys have their own dtype: real units of every key (key order),
+    then imaginary units of the complex keys only"""
+    import nifty.cl as ift
+    keys = list(dom.keys())
+
+    def mk(hot, val):
+        d = {}
+        for k in keys:
+            a = np.zeros(dom[k].shape, dtype=np.complex128 if key_cplx[k] else np.float64).reshape(-1)
+            if hot is not None and hot[0] == k:
+                a[hot[1]] = val
+            d[k] = ift.makeField(dom[k], a.reshape(dom[k].shape))
+        return ift.MultiField.from_dict(d, dom)
+    out = [mk((k, i), 1.) for k in keys for i in range(dom[k].size)]
+    out += [mk((k, i), 1j) for k in keys if key_cplx[k] for i in range(dom[k].size)]
+    return out
+
+
 def dense_apply(fn, din, dout, cplx_in):
     """Matrix (2m x nin) of the real-linear map fn: din -> dout on unit vectors whose dtype matches the
     dtype of the point (real unit vectors only for a real point)."""
     from vf import dense
     n, m = dense.dom_size(din), dense.dom_size(dout)
-    nin = 2 * n if cplx_in else n
+    if isinstance(cplx_in, dict):
+        units = _units_mixed(din, cplx_in)
+    else:
+        units = [_unit(din, j, n, cplx_in) for j in range(2 * n if cplx_in else n)]
+    nin = len(units)
     R = np.zeros((2 * m, nin))
     for j in range(nin):
-        y = dense.flatten(fn(_unit(din, j, n, cplx_in)))
+        y = dense.flatten(fn(units[j]))
         if y.shape != (m,):
             raise AssertionError("output size %s != %d" % (y.shape, m))
         R[:m, j] = y.real
